@@ -8,7 +8,7 @@ into a replay file with repr() and read back with ast.literal_eval):
      'p': {create_state argument name: value, ...},   # automations excluded
      'chips': 'int' | 'fraction' | 'float' | 'decimal',
      'rake': None | ('pct', num, den, cap|None, no_flop_no_drop) | ('min', m),
-     'divmod': None | 'last',
+     'divmod': None | 'last' | 'pairs' (a split rule that differs from the default),
      'plan': None | [card texts that come first in the deck],
      # custom only:
      'deck': 'KUHN6' | 'STANDARD' | ...,  'hand_types': [...],
@@ -211,8 +211,20 @@ CHIP_PARAMS = ('raw_antes', 'raw_blinds_or_straddles', 'raw_starting_stacks',
 
 def divmod_last(dividend, divisor):
     """Custom divmod used as a configuration: same parts, remainder as is."""
-    q, r = pk.utilities.divmod(dividend, divisor)
-    return q, r
+    if isinstance(dividend, int):
+        return divmod(dividend, divisor)
+    q = dividend / divisor
+    return q, dividend - q * divisor
+
+
+def divmod_pairs(dividend, divisor):
+    """A caller's split rule that differs from the default: chips come in pairs, each share is a whole number of pairs and the
+    rest (up to 2 * divisor - 1 chips, not just divisor - 1) is the remainder."""
+    q = (dividend // (2 * divisor)) * 2
+    return q, dividend - q * divisor
+
+
+DIVMODS = {'last': divmod_last, 'pairs': divmod_pairs}
 
 
 def _min_rake(amount, state=None, *, m=1):
@@ -266,8 +278,8 @@ def build(cfg, autos=None):
     rk = rake_of(cfg.get('rake'), conv)
     if rk is not None:
         p['rake'] = rk
-    if cfg.get('divmod') == 'last':
-        p['divmod'] = divmod_last
+    if cfg.get('divmod'):
+        p['divmod'] = DIVMODS[cfg['divmod']]
     if cfg['game'] == 'custom':
         streets = tuple(
             S.Street(b, tuple(h), n, d, OPENING[o], conv(mb) if cfg.get('chips') not in (None, 'int') else mb, mc)
